@@ -388,7 +388,8 @@ fn gen_size(rng: &mut Rng, big_ok: bool) -> usize {
             if big_ok {
                 *rng.pick(&[200_000usize, 900_000, 1_048_000, 1_100_000])
             } else {
-                rng.usize(3001, 40_000)
+                // beyond the 32/64 KiB internal buffers of the stream compressors
+                *rng.pick(&[40_000usize, 65_536, 65_537, 70_000, 131_072, 262_144])
             }
         }
     }
